@@ -25,6 +25,9 @@ type VerifSession struct {
 	quit   chan struct{}
 	arms   []VerifArm
 	connNo int
+
+	// ArmHook, when set, receives every timer arm as it happens (instead of buffering it for DrainArms).
+	ArmHook func(VerifArm)
 }
 
 // VerifArm is one EventTimer.Reset observed through the timer hook.
@@ -52,6 +55,10 @@ func init() {
 	internal.VerifSetTimerHook(func(t *internal.EventTimer, d time.Duration) {
 		if o, ok := verifSessions.Load(t); ok {
 			ow := o.(verifTimerOwner)
+			if ow.v.ArmHook != nil {
+				ow.v.ArmHook(VerifArm{Timer: ow.name, D: d})
+				return
+			}
 			ow.v.mu.Lock()
 			ow.v.arms = append(ow.v.arms, VerifArm{Timer: ow.name, D: d})
 			ow.v.mu.Unlock()
@@ -121,7 +128,7 @@ func (v *VerifSession) Incoming(b []byte) {
 
 // Arrive buffers a message in the inbound channel without processing it; false if the channel is full or gone.
 func (v *VerifSession) Arrive(b []byte) bool {
-	if v.in == nil {
+	if v.in == nil || v.s.messageIn == nil {
 		return false
 	}
 	select {
